@@ -47,7 +47,13 @@ func c05RecurCheck(c c06Case, a *advWorld, stop time.Duration, opens []time.Dura
 	// than that at the stop.
 	lim := iv + 3*time.Second
 	prev := opens[last]
-	for _, t := range append(mc, stop) {
+	for k, t := range append(mc, stop) {
+		// The first three waits on a (re-)initialised interface are capped at 16 s
+		// (it has just become an advertising interface again).
+		if k >= 1 && k <= 3 && iv > 16*time.Second && k < len(mc) && t-prev > 19*time.Second {
+			bad("C05:recur-initial-cap", "connection %d (opened %s): wait %d between multicast RAs was %s, want <= 16s (+3s rate limit) for the first three; all: %v", last, opens[last], k, t-prev, mc)
+			break
+		}
 		if t-prev > lim {
 			bad("C05:recur-stalled", "connection %d (opened %s): no multicast RA between %s and %s (> max+3s = %s); all: %v, stop at %s", last, opens[last], prev, t, lim, mc, stop)
 			break
@@ -84,7 +90,7 @@ func c05RecurRun(t *testing.T, c c06Case) (steps int, log string, vs [][2]string
 func TestVerifC05Recur(t *testing.T) {
 	r := ev.Begin("C05", "recur")
 	defer r.End(t)
-	r.Rule = "histories = all sequences of <=K events over {link change (tear-down + re-initialisation), transient failure of the next scheduled multicast transmission, solicitation from ::, unicast solicitation} x gap {100ms, 3.1s, 6s}, injected into the real Advertiser (min=max in {4s, 9s}) under the virtual clock, followed by five quiet intervals; oracle: Run is still running at the stop and, on the last connection, consecutive multicast RAs are never more than max+3s apart up to the stop; states = histories executed; non-trivial = history has >=1 event; distinct = distinct history"
+	r.Rule = "histories = all sequences of <=K events over {link change (tear-down + re-initialisation), transient failure of the next scheduled multicast transmission, solicitation from ::, unicast solicitation} x gap {0, 100ms, 3.1s, 6s}, injected into the real Advertiser (min=max in {4s, 9s, 30s}; 30s: histories <=2 in the quick tier) under the virtual clock, followed by five quiet intervals; oracle: Run is still running at the stop and, on the last connection, consecutive multicast RAs are never more than max+3s apart up to the stop, the first three waits on a re-initialised interface <=16s; states = histories executed; non-trivial = history has >=1 event; distinct = distinct history"
 	r.Assumptions = []string{"canonical goroutine schedule per history", "min=max so that the wait is not a random variable"}
 	if r.Replay != nil {
 		var c c06Case
@@ -104,7 +110,7 @@ func TestVerifC05Recur(t *testing.T) {
 	if r.Thorough() {
 		K = 4
 	}
-	gaps := []time.Duration{100 * time.Millisecond, 3100 * time.Millisecond, 6 * time.Second}
+	gaps := []time.Duration{0, 100 * time.Millisecond, 3100 * time.Millisecond, 6 * time.Second}
 	n := 4 * len(gaps)
 	idx := 0
 	enum.Sequences(n, K, func(seq []int) bool {
@@ -116,7 +122,10 @@ func TestVerifC05Recur(t *testing.T) {
 			r.Capped("wall-clock budget reached before all histories were run")
 			return false
 		}
-		for _, iv := range []time.Duration{4 * time.Second, 9 * time.Second} {
+		for _, iv := range []time.Duration{4 * time.Second, 9 * time.Second, 30 * time.Second} {
+			if iv > 9*time.Second && len(seq) > 2 && !r.Thorough() {
+				continue
+			}
 			c := c06Case{Interval: iv, Tail: 5 * iv}
 			for _, s := range seq {
 				e := c06Event{Gap: gaps[s%len(gaps)]}
